@@ -282,5 +282,50 @@ def asciiContains (as : List Nat) (c : Nat) : Chk Bool := do
 def zero8 : List Nat := [0, 0, 0, 0, 0, 0, 0, 0]
 
 
+/-! ### internal/headers/acrh.go `Check`, internal/util/sortedset.go `IndexAfter` -/
+
+/-- `SortedSet.IndexAfter(n, e)`; `slices.BinarySearch` on the sorted tail is the position of `e` in it
+(`SortedSet.findIdx`); `none` is the result -1. -/
+def indexAfter (set : SortedSet) (n : Int) (e : Bytes) : Chk (Option Int) := do
+  if set.maxLen < e.length then return none
+  let start := n + 1
+  let tail ← sliceG set.elems start (lenG set.elems)         -- set.elems[start:]
+  match SortedSet.findIdx e tail with
+  | none => return none
+  | some i => return some (start + i)
+
+/-- The inner `for` of `Check` on one field line; state: `posOfLastNameSeen`, `emptyElements`.
+`none` is `return false`. -/
+def checkLine (set : SortedSet) (maxLen : Nat) : Nat → Bytes → Int × Nat → Chk (Option (Int × Nat))
+  | 0, _, _ => .error ()
+  | fuel + 1, acrh, (pos, empties) => do
+    let (name, rest, commaFound) ← cutAtComma acrh maxLen
+    match ← trimOWS name Facts.headers_MaxOWSBytes with
+    | none => return none
+    | some name =>
+      if name.isEmpty then
+        let e := empties + 1
+        if e > Facts.headers_MaxEmptyElements then return none
+        else if !commaFound then return some (pos, e)
+        else checkLine set maxLen fuel rest (pos, e)
+      else
+        match ← indexAfter set pos name with
+        | none => return none
+        | some i =>
+          if !commaFound then return some (i, empties)
+          else checkLine set maxLen fuel rest (i, empties)
+
+def checkLines (set : SortedSet) (maxLen : Nat) : List Bytes → Int × Nat → Chk Bool
+  | [], _ => pure true
+  | l :: ls, st => do
+    match ← checkLine set maxLen (l.length + 1) l st with
+    | none => return false
+    | some st' => checkLines set maxLen ls st'
+
+/-- `headers.Check`. -/
+def check (set : SortedSet) (acrhs : List Bytes) : Chk Bool :=
+  let maxLen := Facts.headers_MaxOWSBytes + set.maxLen + Facts.headers_MaxOWSBytes + 1
+  checkLines set maxLen acrhs (-1, 0)
+
 end Ix
 end Cors
